@@ -130,6 +130,36 @@ example : (C15Dist.tn93_from_matrix exCounts vzero (C15Dist.tn93_func_args [2, 3
     (C15Dist.tn93_func_args [2, 3] [1, 0] 4).2.2.1 (C15Dist.tn93_func_args [2, 3] [1, 0] 4).2.2.2.1
     (C15Dist.tn93_func_args [2, 3] [1, 0] 4).2.2.2.2).isSome = true := by decide +kernel
 
+/-- `_PairwiseDistance._expand` as translated (the `redundants` dict built by the two nested loops over `self.duplicated`, the loops over
+`redundants.items()` and the names, `continue`, the literal 0, `pwise.get(.., None)`, the chained store) is the model's `expand`:
+for EVERY dictionary of distances, every number of names and every `duplicated` whose entries list each duplicate once (an index enters
+`dupes` once and is skipped afterwards), with the model's flat `duped` list being the entries of `duplicated` in insertion order -/
+theorem gen_expand_eq (duplicated : List (Nat × List Nat)) (n : Nat) (st : RunState)
+    (hd : st.duped = flatPairs duplicated) (hn : (duplicated.flatMap (·.2)).Nodup) :
+    C15Dist.expand_ duplicated (List.range' 0 n) st.dists = expand n st := by
+  rw [expand_flat, hd]
+  unfold C15Dist.expand_
+  cases hdup : duplicated with
+  | nil => simp [flatPairs]
+  | cons kv rest =>
+    rw [← hdup]
+    have hne : duplicated.isEmpty = false := by rw [hdup]; rfl
+    simp only [hne, Bool.false_eq_true, if_false]
+    have hr := redundants_fold duplicated [] hn (fun _ _ e he => by cases he)
+    simp only [List.nil_append] at hr
+    rw [hr, List.foldl_map]
+    congr 1
+    funext pw p
+    unfold expandOne
+    congr 1
+    funext pw' name
+    unfold expandName
+    split_ifs <;> simp_all
+
+example : flatPairs [(0, [2, 3]), (1, [4])] = [(0, 2), (0, 3), (1, 4)] ∧ ([(0, [2, 3]), (1, [4])].flatMap (·.2)).Nodup := by decide
+example : (cell (C15Dist.expand_ [(0, [2])] (List.range' 0 3) (dictSet (dictSet ⟨fun _ _ => none⟩ (0, 1) (.hamming 4 (1 / 4) 1)) (1, 0) (.hamming 4 (1 / 4) 1))) 2 1 =
+    .hamming 4 (1 / 4) 1) ∧ cell (C15Dist.expand_ [(0, [2])] (List.range' 0 3) ⟨fun _ _ => none⟩) 2 0 = .zero := by decide +kernel
+
 /-- `_logdetcommon` (the part shared by paralinear and LogDet: validity, the 0.5 pseudo-count on empty diagonal
 cells, normalisation, `det(frequency) <= 0`) is the model's `logdetCommon`, for every continuation `k` -/
 theorem gen_logdetcommon_eq (m : M4) (k : Rat → Rat → M4 → Stat) :
